@@ -253,6 +253,8 @@ fn run_suite<S: ShortGroupSignatureScheme + 'static>(em: &mut Emitter, base: &mu
                     get_mut(&mut v, &pok_path).unwrap()[f] = json!(g1_hex_c(&G1Projective::IDENTITY));
                 }
                 attack_json(em, suite, "identity-element a_bar+b_bar", &world, &v, true);
+                get_mut(&mut v, &pok_path).unwrap()["t"] = json!(g1_hex_c(&G1Projective::IDENTITY));
+                attack_json(em, suite, "identity-element a_bar+b_bar+t", &world, &v, true);
             }
             for f in ["a_bar", "b_bar", "t"] {
                 let mut v = bv.clone();
@@ -285,6 +287,9 @@ fn run_suite<S: ShortGroupSignatureScheme + 'static>(em: &mut Emitter, base: &mu
                     get_mut(&mut v, &pok_path).unwrap()[f] = json!(g1_hex_c(&G1Projective::IDENTITY));
                 }
                 attack_json(em, suite, "identity-element sigma_1+sigma_2", &world, &v, true);
+                // … and the commitment too: what the verifier hashes then no longer depends on the challenge
+                get_mut(&mut v, &pok_path).unwrap()["commitment"] = json!(g2_hex_c(&G2Projective::IDENTITY));
+                attack_json(em, suite, "identity-element sigma_1+sigma_2+commitment", &world, &v, true);
             }
             let mut v = bv.clone();
             get_mut(&mut v, &pok_path).unwrap()["commitment"] = json!(g2_hex_c(&G2Projective::IDENTITY));
